@@ -11,10 +11,10 @@ use std::ffi::OsString;
 
 pub static DEF: PropDef = PropDef {
     id: "C05",
-    rule: "exhaustive: every string up to the stated length over {a,SP,TAB,NL,',\",\\,é} x EVERY cut set of its byte stream (each string is one case, evaluations count string x cut-set pairs); random: byte strings up to ~20 KiB (tokens straddling the 4096-byte refill edge, long quoted runs, arbitrary bytes incl. invalid UTF-8, CR/FF/VT) x generated chunkings (1-byte, after-backslash, inside quotes, inside multi-byte characters, 4096-aligned), default mode and -0/-d C. Oracles: (i) chunking invariance against the single-read result, (ii) reference splitter written from the statement on its specified sub-domain, (iii) delimiter mode = non-empty fields, bytes unchanged; 1 in 30 random inputs also through the xargs binary + rec. Non-trivial = input has a quote or backslash (delimiter mode: a quote, backslash or non-UTF-8 byte) AND some cut falls inside a token / multi-byte character / at the 4096 edge. Distinct = distinct case JSON.",
+    rule: "exhaustive: every string up to the stated length over {a,SP,TAB,NL,',\",\\,é} x EVERY cut set of its byte stream (each string is one case, evaluations count string x cut-set pairs); random: byte strings up to ~20 KiB (tokens straddling the 4096-byte refill edge, long quoted runs, arbitrary bytes incl. invalid UTF-8, CR/FF/VT) x generated chunkings (1-byte, after-backslash, inside quotes, inside multi-byte characters, 4096-aligned), default mode and -0/-d C. Oracles: (i) chunking invariance against the single-read result, (ii) reference splitter written from the statement on its specified sub-domain, (iii) delimiter mode = non-empty fields, bytes unchanged; 1 in 30 random inputs also through the xargs binary + rec, and through the binary without a command (its own echo must print the arguments byte for byte). Non-trivial = input has a quote or backslash (delimiter mode: a quote, backslash or non-UTF-8 byte) AND some cut falls inside a token / multi-byte character / at the 4096 edge. Distinct = distinct case JSON.",
     assumptions: &[
         "the readers are reached through the feature-gated hook xargs::verif_hooks::read_args (the Read it wraps hands out caller-chosen chunk sizes); the end-to-end sample goes through the real binary and pipe",
-        "a backslash at end of input is outside the reference splitter's domain (the statement does not fix them) but inside the chunking-invariance check; CR, FF and VT are neither blanks nor newlines: ordinary bytes of an argument",
+        "a backslash at the very end of the input quotes nothing: it neither begins nor extends an argument; CR, FF and VT are neither blanks nor newlines: ordinary bytes of an argument",
     ],
     run,
     replay,
@@ -36,6 +36,7 @@ pub fn reference_split(input: &[u8]) -> Ref {
     let mut started = false;
     let mut quote: Option<u8> = None;
     let mut escaped = false;
+    let mut started_before_escape = false;
     for &c in input {
         if let Some(q) = quote {
             if c == q {
@@ -51,6 +52,7 @@ pub fn reference_split(input: &[u8]) -> Ref {
             started = true;
         } else if c == b'\\' {
             escaped = true;
+            started_before_escape = started;
             started = true;
         } else if c == b' ' || c == b'\t' || c == b'\n' {
             // a token that was begun by a quote is an argument even when nothing is between the
@@ -68,7 +70,9 @@ pub fn reference_split(input: &[u8]) -> Ref {
         return Ref::Error;
     }
     if escaped {
-        return Ref::Unspecified;
+        // a backslash with nothing after it quotes nothing: it adds nothing to a token that has
+        // begun, and does not begin one ("no argument that is not in the input")
+        started = !tok.is_empty() || started_before_escape;
     }
     if started {
         out.push((tok, false));
@@ -452,6 +456,13 @@ pub fn check(ctx: &mut Ctx, c: &Case) -> Outcome {
                 let run = run_xargs(ctx, &opts, &[rec_path()], input, "", BinOpts { clear_env: true, ..Default::default() });
                 let got: Vec<Vec<u8>> = run.records.iter().flat_map(|r| r.args.clone()).collect();
                 let want: Vec<Vec<u8>> = tokens.iter().map(|(t, _)| t.clone()).collect();
+                // the same input with no command at all: xargs' own echo prints the arguments, byte for byte
+                let echo = run_xargs(ctx, &opts, &[], input, "", BinOpts { clear_env: true, ..Default::default() });
+                let mut line: Vec<u8> = want.join(&b' ');
+                line.push(b'\n');
+                if echo.out.code != Some(0) || echo.out.stdout != line {
+                    return fail(format!("C05:default-echo-alters-arguments:{mode}"), format!("xargs {opts:?} (no command)\ninput {:?}\nexit {:?} stderr {:?}\nexpected stdout {:?}\nobserved stdout {:?}", lossy(input), echo.out.code, lossy(&echo.out.stderr), lossy(&line), lossy(&echo.out.stdout)));
+                }
                 if run.out.code != Some(0) || got != want {
                     return fail(format!("C05:binary-differs-from-reader:{mode}"), format!("input {:?}\nexit {:?} stderr {:?}\nreader tokens: {}\nrec argv: {:?}", lossy(input), run.out.code, lossy(&run.out.stderr), show(&whole), got.iter().map(|a| lossy(a)).collect::<Vec<_>>()));
                 }
